@@ -206,4 +206,25 @@ theorem addChoice_default (r : SwitchR) (var type : Str) (args : List (Option St
   cases r
   simp_all
 
+/-- a new test whose category is new: named explicitly (a name not in use) or by the generator -/
+theorem addChoice_any (r : SwitchR) (var type : Str) (args : List (Option Str)) (name : Str) (dest : Dest) (s : St)
+    (hnew : ∀ k ∈ r.cases, ¬ (k.type = type ∧ k.args = (if s.noArgs.contains type then [] else args)))
+    (hfree : name ≠ [] → r.catByName name = none)
+    (Q : SwitchR → St → Prop)
+    (h : s.testTypes.contains type = true →
+      Q { r with operand := if var.isEmpty then r.operand else var,
+                 cats := r.cats ++ [{ uid := tid s.next,
+                                      name := if name.isEmpty then genCatName (if var.isEmpty then r else { r with operand := var }) args else name,
+                                      exitUid := tid (s.next + 1), dest := dest }],
+                 cases := r.cases ++ [{ uid := tid (s.next + 2), type := type,
+                                        args := if s.noArgs.contains type then [] else args,
+                                        catUid := tid s.next }] }
+        { s with next := s.next + 3 }) :
+    wp (addChoice r var type args name dest false) s Q := by
+  by_cases hn : name = []
+  · subst hn
+    exact addChoice_new r var type args dest s hnew Q (by simpa using h)
+  · have hemp : name.isEmpty = false := by cases name with | nil => exact absurd rfl hn | cons _ _ => rfl
+    exact addChoice_named r var type args name dest s hnew hn (hfree hn) Q (by simpa [hemp] using h)
+
 end Rpft.Compile
